@@ -9,12 +9,12 @@ git apply --check "$SD/patch.diff" || { echo "PATCH DOES NOT APPLY"; exit 3; }
 git apply "$SD/patch.diff"
 if git diff --name-only | grep -v '^src/' ; then echo "PATCH TOUCHES NON-src FILES"; fi
 echo "== suite with change"
-cargo test --workspace --no-fail-fast --offline 2>&1 | grep -E '^test result|FAILED|failed to' | tr '\n' ' '; echo
+cargo test --workspace --no-fail-fast --offline 2>&1 | grep -a -E '^test result|FAILED|failed to' | tr '\n' ' '; echo
 cp "$SD/demo.rs" tests/seed_demo.rs
 echo "== demo with change (must fail)"
-cargo test --offline $FEAT --test seed_demo 2>&1 | grep -E '^test result|error\[' | head -3
+cargo test --offline $FEAT --test seed_demo 2>&1 | grep -a -E '^test result|error\[' | head -3
 git checkout -q -- src
 echo "== demo without change (must pass)"
-cargo test --offline $FEAT --test seed_demo 2>&1 | grep -E '^test result|error\[' | head -3
+cargo test --offline $FEAT --test seed_demo 2>&1 | grep -a -E '^test result|error\[' | head -3
 rm -f tests/seed_demo.rs
 git status --short | grep -v SEED
